@@ -215,10 +215,6 @@ def h_edits(eng, e1=0):
                        "modify": sorted(p for p in index if p in head and index[p] != head[p])}
         want_unstaged = sorted(p for p in index if disk.get(p) != index[p])
         want_untracked = sorted(p for p in disk if p not in index)
-        if eng.known("C18-chmod-unreported"):
-            # region of the known finding: some tracked regular file differs from the index only in its executable bit
-            eng.assume(not any(p in disk and disk[p][1] == index[p][1] and {disk[p][0], index[p][0]} == {0o100644, 0o100755}
-                               for p in index))
         got = _status(r)
         tag = f"[edits={seq} on {target!r}, d/g kind={L[b'd/g']}]"
         eng.prove(got[0] == want_staged, f"{tag} staged changes exact (got {got[0]}, want {want_staged})")
